@@ -41,7 +41,7 @@ OTHER_LEAVES = [x for x in soup._LEAVES if isinstance(x, dict)]  # noqa: SLF001
 
 
 def build_table(table_seed: int, size: int):
-    gen = tspec.TypeGen(max_depth=3, dumpable_unions=False, disjoint_unions=False)
+    gen = tspec.TypeGen(max_depth=3, dumpable_unions=False, disjoint_unions=False, unhashable_set_elems=True)
     specs, seen = [], set()
 
     @seed(table_seed)
